@@ -65,12 +65,12 @@ def graph_conformance(rnd, rounds=300):
                 "remove_edge": lambda g: g.remove_edge(u, v),
                 "has_node": lambda g: bool(g.has_node(u)),
                 "has_edge": lambda g: bool(g.has_edge(u, v)),
-                "succ": lambda g: sorted(g.successors(u)),
+                "succ": lambda g: list(g.successors(u)),  # iteration order = insertion order
                 "pred": lambda g: sorted(g.predecessors(u)),
                 "in_deg": lambda g: _val(g.in_degree(u)),
                 "out_deg": lambda g: _val(g.out_degree(u)),
                 "in_edges": lambda g: sorted(g.in_edges(u)),
-                "out_edges": lambda g: sorted(g.out_edges(u)),
+                "out_edges": lambda g: list(g.out_edges(u)),
                 "out_edges_list": lambda g: sorted(g.out_edges([u, v])),
                 "nodes": lambda g: sorted(g.nodes()),
                 "edges": lambda g: sorted(g.edges()),
